@@ -390,9 +390,7 @@ def Listener_handleConnection : List String := [
   "if !ok",
   "return",
   "end",
-  "_ = tcpConn.SetReadDeadline(time.Now().Add(crossNodeFirstFrameTimeout))",
-  "tunnelID, frameType, data, err := ReadFrameFromReader(bufio.NewReader(tcpConn))",
-  "_ = tcpConn.SetReadDeadline(time.Time{})",
+  "tunnelID, frameType, data, err := ReadFrame(tcpConn)",
   "if err != nil",
   "return",
   "end",
